@@ -301,11 +301,10 @@ func (fs LocalFileSystem) Copy(ctx context.Context, src, dst string, options *Co
 		return false, err
 	}
 
-	srcInfo, created, err := checkCopyMove(srcPath, dstPath, options.NoOverwrite)
+	_, created, err = checkCopyMove(srcPath, dstPath, options.NoOverwrite)
 	if err != nil {
 		return false, err
 	}
-	srcPerm := srcInfo.Mode() & os.ModePerm
 
 	if !created {
 		if err := os.RemoveAll(dstPath); err != nil {
@@ -318,12 +317,19 @@ func (fs LocalFileSystem) Copy(ctx context.Context, src, dst string, options *Co
 			return err
 		}
 
+		rel, err := filepath.Rel(srcPath, p)
+		if err != nil {
+			return err
+		}
+		target := filepath.Join(dstPath, rel)
+		perm := fi.Mode() & os.ModePerm
+
 		if fi.IsDir() {
-			if err := os.Mkdir(dstPath, srcPerm); err != nil {
+			if err := os.Mkdir(target, perm); err != nil {
 				return errFromOS(err)
 			}
 		} else {
-			if err := copyRegularFile(srcPath, dstPath, srcPerm); err != nil {
+			if err := copyRegularFile(p, target, perm); err != nil {
 				return err
 			}
 		}
